@@ -12,14 +12,14 @@ EXTENDS Naturals, Sequences, TLC, Json, IOUtils
 HB == 256
 G == 9
 B == 8
-INSTANCE Lookups
+INSTANCE Chiplets
 
 Events == ndJsonDeserialize(IOEnv.TRACE)
 N == Len(Events)
 
 VARIABLES l, vm, prog, stats, lk        \* lk : requests issued so far (C12) [mem, bw, rc : sequences ; def : all defined]
 vars == <<l, vm, prog, stats, lk>>
-NoLk == [mem |-> <<>>, bw |-> <<>>, rc |-> <<>>, def |-> TRUE]
+NoLk == [mem |-> <<>>, bw |-> <<>>, rc |-> <<>>, def |-> TRUE, hs |-> <<>>, sys |-> <<>>]
 
 \* JSON helpers: JSON arrays are sequences already; digests / words are sequences of 4 limb-sequences
 MkOps(ops) == [i \in 1 .. Len(ops) |-> [o |-> ops[i].o, c |-> ops[i].c, imm |-> ops[i].imm]]
@@ -31,6 +31,15 @@ MkNode(n) == IF n.k = "span" THEN [k |-> "span", h |-> n.h, ops |-> MkOps(n.ops)
 
 MkProg(pre) == [mast |-> MkNode(pre.mast), procs |-> [i \in 1 .. Len(pre.procs) |-> [h |-> pre.procs[i].h, node |-> MkNode(pre.procs[i].node)]],
                 kernel |-> pre.kernel, hash |-> pre.hash, dynhash |-> pre.dynhash]
+
+\* full chiplet rows of a recording (JSON arrays -> records)
+HasFull(ev) == "chip" \in DOMAIN ev /\ "full" \in DOMAIN ev.chip
+FullHasher(f) == [i \in 1 .. Len(f.hasher) |-> [s |-> f.hasher[i][1], h |-> f.hasher[i][2], i |-> f.hasher[i][3]]]
+FullBw(f) == [i \in 1 .. Len(f.bw) |-> [sel |-> f.bw[i][1], a |-> f.bw[i][2], b |-> f.bw[i][3], ab |-> f.bw[i][4], bb |-> f.bw[i][5],
+                                        zp |-> f.bw[i][6], z |-> f.bw[i][7]]]
+FullMem(f) == [i \in 1 .. Len(f.mem) |-> [s0 |-> f.mem[i][1], s1 |-> f.mem[i][2], ctx |-> f.mem[i][3], a |-> f.mem[i][4], clk |-> f.mem[i][5],
+                                          w |-> f.mem[i][6], d0 |-> f.mem[i][7], d1 |-> f.mem[i][8], t |-> f.mem[i][9]]]
+FullKern(f) == [i \in 1 .. Len(f.kern) |-> [s0 |-> f.kern[i][1], idx |-> f.kern[i][2], root |-> f.kern[i][3]]]
 
 Init == l = 1 /\ vm = [none |-> TRUE] /\ prog = [none |-> TRUE] /\ stats = [rows |-> 0, runs |-> 0] /\ lk = NoLk
 
@@ -80,8 +89,9 @@ RowEv == /\ l >= 1 /\ l <= N /\ Events[l].e = "row"
                                   lk' = IF r.row.sp = 1
                                           THEN [mem |-> lk.mem \o MemReqs(vm, r.row.op, e2), bw |-> lk.bw \o BwReqs(vm, r.row.op),
                                                 rc |-> lk.rc \o (IF RcDefined(vm, r.row.op) THEN RcReqs(vm, r.row.op) ELSE <<>>),
-                                                def |-> lk.def /\ RcDefined(vm, r.row.op)]
-                                          ELSE lk
+                                                def |-> lk.def /\ RcDefined(vm, r.row.op),
+                                                hs |-> lk.hs \o HashReqs(vm, r), sys |-> lk.sys]
+                                          ELSE [lk EXCEPT !.hs = @ \o HashReqs(vm, r), !.sys = @ \o KernReqs(r)]
 
 \* the specification running on its own (no recorded inputs) until it halts, fails or runs out of fuel
 RECURSIVE FreeRun(_, _)
@@ -95,7 +105,8 @@ FreeRun(v, fuel) ==
 EndEv == /\ l >= 1 /\ l <= N /\ Events[l].e = "end"
          /\ \E ev \in {Events[l]} :
             IF ev.outcome = "ok" /\ "none" \notin DOMAIN vm
-              THEN \E bad \in {{f \in {"halt", "out_stack", "lk_memory", "lk_bitwise", "lk_range", "lk_hasher_rows"} :
+              THEN \E bad \in {{f \in {"halt", "out_stack", "lk_memory", "lk_bitwise", "lk_range", "lk_hasher_rows",
+                                         "chip_hasher", "chip_bitwise", "chip_memory", "chip_kernel", "chip_layout"} :
                                  CASE f = "halt" -> vm.todo.do # "halt"
                                    [] f = "out_stack" -> ev.out_stack # vm.stack
                                    \* lookups balance (C12): what the chiplets / range checker provide is what the operations requested
@@ -107,7 +118,13 @@ EndEv == /\ l >= 1 /\ l <= N /\ Events[l].e = "end"
                                           LET req == lk.rc \o ev.chip.memd  tab == ev.chip.range IN
                                           \/ \E i \in 1 .. Len(tab) : Count(req, tab[i][1]) # tab[i][2]
                                           \/ \E j \in 1 .. Len(req) : \A i \in 1 .. Len(tab) : tab[i][1] # req[j]
-                                   [] f = "lk_hasher_rows" -> "chip" \in DOMAIN ev /\ ev.chip.hasher_rows # vm.hrows}} :
+                                   [] f = "lk_hasher_rows" -> "chip" \in DOMAIN ev /\ ev.chip.hasher_rows # vm.hrows
+                                   \* the chiplets segment row by row (Chiplets.tla), when the recording carries it
+                                   [] f = "chip_hasher" -> HasFull(ev) /\ HasherBad(lk.hs, 1, FullHasher(ev.chip.full), ev.chip.full.rounds, 1) # 0
+                                   [] f = "chip_bitwise" -> HasFull(ev) /\ BitwiseBad(lk.bw, FullBw(ev.chip.full)) # 0
+                                   [] f = "chip_memory" -> HasFull(ev) /\ MemoryBad(lk.mem, FullMem(ev.chip.full)) # 0
+                                   [] f = "chip_kernel" -> HasFull(ev) /\ KernelBad(prog.kernel, lk.sys, FullKern(ev.chip.full))
+                                   [] f = "chip_layout" -> HasFull(ev) /\ ~(ev.chip.full.order_ok /\ ev.chip.full.pad_zero)}} :
                    IF bad # {} THEN PrintT(<<"REJECT", l, "end", bad>>) /\ l' = 0
                       ELSE l' = l + 1
             ELSE IF ev.outcome = "err" /\ "none" \notin DOMAIN vm
